@@ -232,7 +232,9 @@ fn obs_collapse(res: &std::result::Result<SearchResult, String>) -> Value {
 #[allow(clippy::too_many_arguments)]
 fn collapse_event(cx: &mut Ctx, q: &Q, filt: Option<&F>, sort: &[SortSpecA], inner: Option<&InnerA>, limit: usize, exec: &str, note: &str) -> Value {
   let cover_limit = cx.n_slots + 5;
-  let mut base_req = base_request(q, filt, cover_limit, "bm25");
+  // same execution strategy for both requests: scores of one document may differ in the last
+  // bits between strategies, and the collapsed hits are compared bit-exactly with the ranking
+  let mut base_req = base_request(q, filt, cover_limit, exec);
   base_req["sort"] = render_sort(sort);
   let base = run_search(&cx.reader, &base_req);
   let mut req = base_request(q, filt, limit, exec);
